@@ -16,6 +16,7 @@
 #include "clstepcore/STEPattribute.h"
 #include "clstepcore/ExpDict.h"
 #include "clstepcore/Registry.h"
+#include "clstepcore/complexSupport.h"
 #include "schema.h"
 
 static const char * prim( PrimitiveType t ) {
@@ -168,6 +169,16 @@ int main() {
         }
         aggrInfo( td );
         printf( "\n" );
+    }
+    // the structures generated for checking externally mapped instances: one list per supertype, with every entity it holds
+    if( registry.CompCol() ) {
+        for( ComplexList * cl = registry.CompCol()->clists; cl; cl = cl->next ) {
+            printf( "CLIST %s", lower( cl->supertype() ).c_str() );
+            for( EntNode * en = cl->list; en; en = en->next ) {
+                printf( " %s", lower( en->Name() ).c_str() );
+            }
+            printf( "\n" );
+        }
     }
     return 0;
 }
